@@ -57,7 +57,9 @@ def clause_pool(verb, rng):
     if verb == "rear":
         return {"as": "as mine", "be": "be aux", "in": "in frame b"}
     if verb == "need":
-        return {"in": "in frame " + rng.choice(["a", "b", "me"]), "by": "by " + rng.choice(["k1", "k2"])}
+        # the frame name after `in frame` is optional; `kind` picks the participle the script uses
+        return {"in": "in frame" + rng.choice(["", "", " a", " b", " me"]), "by": "by " + rng.choice(["k1", "k2", '"k 3"']),
+                "kind": rng.choice(["updated", "changed"])}
     raise ValueError(verb)
 
 
@@ -80,7 +82,9 @@ def script(verb, clauses):
     if verb == "rear":
         return (HEAD + "  framer fx be active\n    frame a\n      rear mo %s\n      go b\n    frame b\n  framer mo be moot\n    frame x\n" % c)
     if verb == "need":
-        return HEAD + "  framer fx be active\n    frame a\n      go b if .c0 is updated %s\n    frame b\n      go a\n" % c
+        kind = [x for x in clauses if x in ("updated", "changed")]
+        c = " ".join(x for x in clauses if x not in ("updated", "changed"))
+        return HEAD + "  framer fx be active\n    frame a\n      go b if .c0 is %s %s\n    frame b\n      go a\n" % (kind[0] if kind else "updated", c)
     raise ValueError(verb)
 
 
